@@ -14,13 +14,14 @@ use grin_core::global;
 use grin_core::libtx::proof::{self, LegacyProofBuilder, ProofBuild, ProofBuilder};
 use grin_core::libtx::{aggsig, build, reward};
 use grin_core::pow::Difficulty;
+use grin_keychain::mnemonic;
 use grin_keychain::{
 	BlindSum, BlindingFactor, ChildNumber, ExtKeychain, ExtKeychainPath, Identifier, Keychain,
 	SwitchCommitmentType, ViewKey,
 };
-use grin_util::secp::key::SecretKey;
+use grin_util::secp::key::{PublicKey, SecretKey};
 use grin_util::secp::pedersen::{Commitment, ProofMessage, RangeProof};
-use grin_util::secp::Secp256k1;
+use grin_util::secp::{Message, Secp256k1};
 use serde_json::{json, Value};
 use std::panic::{catch_unwind, AssertUnwindSafe};
 use vcommon::*;
@@ -127,6 +128,11 @@ impl World {
 			x => panic!("amount class {}", x),
 		}
 	}
+	/// class "cj" of Keys.tla: the value in the identifier components behind the depth (non-zero, not hardened)
+	fn junk(&self) -> u32 {
+		let mut r = Rng::new(self.rng_base.0 ^ 0x9AD, self.rng_base.1, self.rng_base.2);
+		r.range(1, 0x7fff_ffff) as u32
+	}
 	fn path(&self, p: &Value) -> Vec<u32> {
 		p.as_array()
 			.unwrap()
@@ -137,9 +143,13 @@ impl World {
 	}
 }
 
-fn ident(path: &[u32]) -> Identifier {
-	let g = |i: usize| if i < path.len() { path[i] } else { 0 };
+fn ident_p(path: &[u32], pad: u32) -> Identifier {
+	let g = |i: usize| if i < path.len() { path[i] } else { pad };
 	ExtKeychainPath::new(path.len() as u8, g(0), g(1), g(2), g(3)).to_identifier()
+}
+
+fn ident(path: &[u32]) -> Identifier {
+	ident_p(path, 0)
 }
 
 fn mode_of(s: &str) -> SwitchCommitmentType {
@@ -216,7 +226,18 @@ fn classify<B: ProofBuild>(
 	proof: RangeProof,
 	want: (u64, &Identifier, SwitchCommitmentType),
 ) -> (String, Value) {
-	let r = catch_unwind(AssertUnwindSafe(|| proof::rewind(secp, b, commit, None, proof)));
+	classify_x(secp, b, commit, None, proof, want)
+}
+
+fn classify_x<B: ProofBuild>(
+	secp: &Secp256k1,
+	b: &B,
+	commit: Commitment,
+	extra: Option<Vec<u8>>,
+	proof: RangeProof,
+	want: (u64, &Identifier, SwitchCommitmentType),
+) -> (String, Value) {
+	let r = catch_unwind(AssertUnwindSafe(|| proof::rewind(secp, b, commit, extra, proof)));
 	match r {
 		Err(_) => ("panic".into(), Value::Null),
 		Ok(Err(e)) => ("err".into(), json!(format!("{:?}", e))),
@@ -237,7 +258,8 @@ fn classify<B: ProofBuild>(
 fn class_ok(exp: &str, got: &str) -> bool {
 	match exp {
 		"some" => got == "exact",
-		"none" => got == "none" || got == "err",
+		// "recovers nothing" is the answer Ok(None) (Keys.tla NoneR); an Err aborts a wallet scan
+		"none" => got == "none",
 		// ViewKey::commit(.., Regular) is not implemented in the code (Err); if it ever is, the
 		// only acceptable data is the exact triple
 		"unsupported" => got == "none" || got == "err" || got == "exact",
@@ -287,6 +309,23 @@ fn message_for(fmt: &str, id: &Identifier, sw: SwitchCommitmentType) -> [u8; 20]
 			m[2] = 2;
 			m[3] = idb[0];
 		}
+		"b0" => {
+			m[0] = 1;
+			m[2] = swb;
+			m[3] = idb[0];
+		}
+		"dp5" => {
+			m[2] = swb;
+			m[3] = 5;
+		}
+		"dp255" => {
+			m[2] = swb;
+			m[3] = 255;
+		}
+		"dpm1" => {
+			m[2] = swb;
+			m[3] = idb[0].saturating_sub(1);
+		}
 		x => panic!("fmt {}", x),
 	}
 	m
@@ -303,12 +342,16 @@ fn replay_out(c: &Value, w: &World, inst: u64, t: &mut Tally) {
 	let mode = mode_of(a["mode"].as_str().unwrap());
 	let fam = a["fam"].as_str().unwrap();
 	let fmt = a["fmt"].as_str().unwrap();
-	let id = ident(&path);
+	// identifier padding (Keys.tla IdentP): odd instantiations carry a junk value behind the depth when the
+	// case record says that no expectation depends on it
+	let pad_ok = c["pads"].as_array().map(|p| p.iter().any(|x| x == "cj")).unwrap_or(false);
+	let pad = if pad_ok && inst % 2 == 1 { w.junk() } else { 0 };
+	let id = ident_p(&path, pad);
 
 	// identifier <-> path round trip
 	let back = id.to_path();
 	t.ok(
-		back.depth as usize == path.len() && (0..4).all(|i| u32::from(back.path[i]) == *path.get(i).unwrap_or(&0)),
+		back.depth as usize == path.len() && (0..4).all(|i| u32::from(back.path[i]) == *path.get(i).unwrap_or(&pad)),
 		"ident_roundtrip",
 		inst,
 		json!({"id": hex(&id.to_bytes())}),
@@ -337,6 +380,15 @@ fn replay_out(c: &Value, w: &World, inst: u64, t: &mut Tally) {
 		}
 	};
 	t.ok(commit == c2, "commit_nondeterministic", inst, json!({"depth": path.len()}));
+	if pad != 0 {
+		// the bytes behind the depth do not influence the key
+		t.ok(
+			kc2.commit(amt, &ident(&path), mode).ok() == Some(commit),
+			"padding_changes_commit",
+			inst,
+			json!({"depth": path.len()}),
+		);
+	}
 	// commit is the Pedersen commitment to (amount, derived key)
 	t.ok(
 		kc1.secp().commit(amt, k1.clone()).ok() == Some(commit),
@@ -389,6 +441,36 @@ fn replay_out(c: &Value, w: &World, inst: u64, t: &mut Tally) {
 	let v = catch_unwind(AssertUnwindSafe(|| proof::verify(secp, commit, proof, None)));
 	t.ok(matches!(v, Ok(Ok(()))), "proof_does_not_verify", inst, json!({"amt": amt.to_string(), "depth": path.len()}));
 
+	// Keychain::sign (Keys.tla SignOK): verifies under commit - amount*H, bound to the message
+	let mut mr = Rng::new(w.rng_base.0 ^ 0x516, w.rng_base.1, w.rng_base.2);
+	let msg1 = Message::from_slice(&mr.bytes32()).unwrap();
+	let msg2 = Message::from_slice(&mr.bytes32()).unwrap();
+	let own_pk: Option<PublicKey> = if amt == 0 {
+		commit.to_pubkey(secp).ok()
+	} else {
+		secp.commit_value(amt)
+			.and_then(|vc| secp.commit_sum(vec![commit], vec![vc]))
+			.and_then(|x| x.to_pubkey(secp))
+			.ok()
+	};
+	match (&own_pk, catch_unwind(AssertUnwindSafe(|| kc2.sign(&msg1, amt, &id, mode)))) {
+		(Some(pk), Ok(Ok(sig))) => {
+			t.ok(
+				secp.verify(&msg1, &sig, pk).is_ok(),
+				"sign_does_not_verify",
+				inst,
+				json!({"amt": a["amt"], "depth": path.len()}),
+			);
+			t.ok(secp.verify(&msg2, &sig, pk).is_err(), "sign_not_bound_to_message", inst, Value::Null);
+		}
+		(pk, sg) => t.ok(
+			false,
+			"sign_failed",
+			inst,
+			json!({"pubkey": pk.is_some(), "sign": format!("{:?}", sg.map(|r| r.is_ok()))}),
+		),
+	}
+
 	let want = (amt, &id, mode);
 	// rewinding wallets: one more fresh keychain per seed (never the creating instance)
 	let wallets: Vec<(&str, ExtKeychain)> = ["s1", "s2", "s3"].iter().map(|n| (*n, w.keychain(n))).collect();
@@ -406,6 +488,65 @@ fn replay_out(c: &Value, w: &World, inst: u64, t: &mut Tally) {
 			inst,
 			json!({"rw": kind, "same_seed": row["seed"] == a["seed"], "exp": exp, "got": got, "data": det}),
 		);
+	}
+	// extra data (Keys.tla ExtraDataBinds): instantiation 1 of honest cases
+	if inst == 1 {
+		let mut er = Rng::new(w.rng_base.0 ^ 0xE7A, w.rng_base.1, w.rng_base.2);
+		let mut mk = |tag: u8| -> Vec<u8> {
+			let n = er.range(1, 64) as usize;
+			let mut v: Vec<u8> = (0..n).map(|_| er.next() as u8).collect();
+			v[0] = tag; // "e1" and "e2" are different byte strings
+			v
+		};
+		let e1 = mk(1);
+		let e2 = mk(2);
+		let data = |n: &str| -> Option<Vec<u8>> {
+			match n {
+				"none" => None,
+				"e1" => Some(e1.clone()),
+				"e2" => Some(e2.clone()),
+				x => panic!("extra class {}", x),
+			}
+		};
+		let mut made: Vec<(String, RangeProof)> = vec![("none".to_string(), proof)];
+		for row in c["extra"].as_array().map(|x| x.to_vec()).unwrap_or_default() {
+			let cx = row["c"].as_str().unwrap();
+			let ry = row["r"].as_str().unwrap();
+			let px = match made.iter().find(|(k, _)| k == cx) {
+				Some((_, p)) => *p,
+				None => {
+					t.proofs += 1;
+					match catch_unwind(AssertUnwindSafe(|| proof::create(&kc1, &b1, amt, &id, mode, commit, data(cx)))) {
+						Ok(Ok(p)) => {
+							made.push((cx.to_string(), p));
+							p
+						}
+						_ => {
+							t.ok(false, "create_err", inst, json!({"extra": cx}));
+							continue;
+						}
+					}
+				}
+			};
+			let v = catch_unwind(AssertUnwindSafe(|| proof::verify(secp, commit, px, data(ry))));
+			let vgot = match v {
+				Ok(Ok(())) => "ok",
+				Ok(Err(_)) => "fail",
+				Err(_) => "panic",
+			};
+			let vexp = if row["verifies"].as_bool().unwrap() { "ok" } else { "fail" };
+			t.ok(vgot == vexp, "extra_verify", inst, json!({"created": cx, "with": ry, "exp": vexp, "got": vgot}));
+			let kc = wallet(sname);
+			let b = AnyBuilder::make(fam, kc);
+			let (got, det) = classify_x(kc.secp(), &b, commit, data(ry), px, want);
+			let exp = row["exp"].as_str().unwrap();
+			t.ok(
+				class_ok(exp, &got),
+				"extra_rewind",
+				inst,
+				json!({"created": cx, "with": ry, "exp": exp, "got": got, "data": det}),
+			);
+		}
 	}
 	// view keys
 	for row in c["view"].as_array().unwrap() {
@@ -484,10 +625,273 @@ fn replay_out(c: &Value, w: &World, inst: u64, t: &mut Tally) {
 		t.ok(matches!(v, Ok(Err(_))), "proof_verifies_for_other_commit", inst, json!({"differs_in": what}));
 		let (got, det) = classify(secp, &b1, c2, proof, want);
 		t.ok(
-			got == "none" || got == "err",
+			got == "none",
 			"rewind_on_other_commit",
 			inst,
 			json!({"differs_in": what, "got": got, "data": det}),
+		);
+		// the sibling's signature verifies under this output's key iff the specification says the keys coincide
+		if let (Some(pk), Some(sigok)) = (&own_pk, sb["sigok"].as_bool()) {
+			match catch_unwind(AssertUnwindSafe(|| kc.sign(&msg1, amt2, &id2, m2))) {
+				Ok(Ok(sig)) => t.ok(
+					secp.verify(&msg1, &sig, pk).is_ok() == sigok,
+					"sibling_sign",
+					inst,
+					json!({"differs_in": what, "exp": sigok}),
+				),
+				_ => t.ok(false, "sign_failed", inst, json!({"differs_in": what})),
+			}
+		}
+	}
+}
+
+// ---------------------------------------------------------------------------------------------
+// kind = "pair": two outputs differing in at least two coordinates (MC_Keys_pairs)
+
+fn replay_pair(c: &Value, w: &World, inst: u64, t: &mut Tally) {
+	let arg = |a: &Value| {
+		(
+			a["seed"].as_str().unwrap().to_string(),
+			w.path(&a["path"]),
+			w.amount(a["amt"].as_str().unwrap()),
+			mode_of(a["mode"].as_str().unwrap()),
+			a["fam"].as_str().unwrap().to_string(),
+		)
+	};
+	let (sa, pa, va, ma, fa) = arg(&c["a"]);
+	let (sb, pb, vb, mb, _) = arg(&c["b"]);
+	let (ida, idb) = (ident(&pa), ident(&pb));
+	let kca = w.keychain(&sa);
+	let kcb = w.keychain(&sb);
+	let desc = json!({"a": c["a"], "b": c["b"]});
+	let (ca, cb) = match (kca.commit(va, &ida, ma), kcb.commit(vb, &idb, mb)) {
+		(Ok(x), Ok(y)) => (x, y),
+		_ => {
+			t.ok(false, "commit_failed", inst, desc);
+			return;
+		}
+	};
+	t.ok(
+		(ca == cb) == c["same_commit"].as_bool().unwrap(),
+		"pair_commit_collision",
+		inst,
+		desc.clone(),
+	);
+	let ba = AnyBuilder::make(&fa, &kca);
+	t.proofs += 1;
+	let proof = match catch_unwind(AssertUnwindSafe(|| proof::create(&kca, &ba, va, &ida, ma, ca, None))) {
+		Ok(Ok(p)) => p,
+		_ => {
+			t.ok(false, "create_err", inst, desc);
+			return;
+		}
+	};
+	let secp = kca.secp();
+	let v = catch_unwind(AssertUnwindSafe(|| proof::verify(secp, cb, proof, None)));
+	let vexp = c["swapped_verifies"].as_bool().unwrap();
+	t.ok(
+		matches!(v, Ok(Ok(()))) == vexp && v.is_ok(),
+		"pair_swapped_proof_verifies",
+		inst,
+		desc.clone(),
+	);
+	let want = (va, &ida, ma);
+	for (field, commit) in [("swapped", cb), ("own", ca)] {
+		for row in c[field].as_array().unwrap() {
+			let kc = w.keychain(row["seed"].as_str().unwrap());
+			let kind = row["kind"].as_str().unwrap();
+			let b = AnyBuilder::make(kind, &kc);
+			let (got, det) = classify(kc.secp(), &b, commit, proof, want);
+			let exp = row["exp"].as_str().unwrap();
+			t.ok(
+				class_ok(exp, &got),
+				if field == "own" { "pair_own_rewind" } else { "pair_swapped_rewind" },
+				inst,
+				json!({"case": desc, "rw": kind, "seed": row["seed"], "exp": exp, "got": got, "data": det}),
+			);
+		}
+	}
+}
+
+// ---------------------------------------------------------------------------------------------
+// kind = "wal": two keychain constructors (Keys.tla wallet part)
+
+struct WalEnv {
+	blocks: Vec<[u8; 16]>,   // p, q
+	words: Vec<String>,      // w1 (12 words), w2 (24 words)
+	pass: Vec<String>,       // "", x, y
+	masks: Vec<SecretKey>,   // m1, m2
+	is_test: bool,
+}
+
+impl WalEnv {
+	fn seed_bytes(&self, b: &Value) -> Vec<u8> {
+		let mut v = vec![];
+		for x in b.as_array().unwrap() {
+			let i = match x.as_str().unwrap() {
+				"p" => 0,
+				"q" => 1,
+				y => panic!("block {}", y),
+			};
+			v.extend_from_slice(&self.blocks[i]);
+		}
+		v
+	}
+	fn words_of(&self, c: &Value) -> (&str, &str) {
+		let w = match c["w"].as_str().unwrap() {
+			"w1" => &self.words[0],
+			"w2" => &self.words[1],
+			y => panic!("word list {}", y),
+		};
+		let p = match c["p"].as_str().unwrap() {
+			"" => &self.pass[0],
+			"x" => &self.pass[1],
+			"y" => &self.pass[2],
+			y => panic!("passphrase {}", y),
+		};
+		(w.as_str(), p.as_str())
+	}
+	/// the constructor named by the case record, as the code offers it
+	fn make(&self, c: &Value) -> Result<ExtKeychain, String> {
+		match c["k"].as_str().unwrap() {
+			"seed" => ExtKeychain::from_seed(&self.seed_bytes(&c["b"]), self.is_test).map_err(|e| format!("{:?}", e)),
+			"mnemonic" => {
+				let (w, p) = self.words_of(c);
+				ExtKeychain::from_mnemonic(w, p, self.is_test).map_err(|e| format!("{:?}", e))
+			}
+			"mnemonic_seed" => {
+				let (w, p) = self.words_of(c);
+				let seed = mnemonic::to_seed(w, p).map_err(|e| format!("{:?}", e))?;
+				ExtKeychain::from_seed(&seed, self.is_test).map_err(|e| format!("{:?}", e))
+			}
+			"masked" => {
+				let mut kc =
+					ExtKeychain::from_seed(&self.seed_bytes(&c["b"]), self.is_test).map_err(|e| format!("{:?}", e))?;
+				for m in c["m"].as_array().unwrap() {
+					let i = match m.as_str().unwrap() {
+						"m1" => 0,
+						"m2" => 1,
+						y => panic!("mask {}", y),
+					};
+					kc.mask_master_key(&self.masks[i]).map_err(|e| format!("{:?}", e))?;
+				}
+				Ok(kc)
+			}
+			y => panic!("ctor {}", y),
+		}
+	}
+}
+
+fn replay_wal(c: &Value, seed: u64, case: u64, inst: u64, t: &mut Tally) {
+	let mut r = Rng::new(seed ^ 0x3A11, case, inst);
+	let secp0 = Secp256k1::with_caps(grin_util::secp::ContextFlag::Commit);
+	let mut b16 = || {
+		let x = r.bytes32();
+		let mut y = [0u8; 16];
+		y.copy_from_slice(&x[..16]);
+		y
+	};
+	let blocks = vec![b16(), b16()];
+	let e1 = b16();
+	let e2 = r.bytes32();
+	let words = vec![mnemonic::from_entropy(&e1).unwrap(), mnemonic::from_entropy(&e2).unwrap()];
+	let mut pw = |tag: char| -> String {
+		let n = r.range(1, 24);
+		let mut s2: String = (0..n).map(|_| (b'a' + r.below(26) as u8) as char).collect();
+		s2.push(tag); // x and y are different, neither is empty
+		s2
+	};
+	let pass = vec![String::new(), pw('1'), pw('2')];
+	let masks = vec![rand_key(&secp0, &mut r), rand_key(&secp0, &mut r)];
+	let env = WalEnv {
+		blocks,
+		words,
+		pass,
+		masks,
+		is_test: inst % 2 == 1,
+	};
+	let same = c["same"].as_bool().unwrap();
+	let desc = json!({"c1": c["c1"], "c2": c["c2"], "class": c["class"], "same": same});
+	let (k1, k2) = match (
+		catch_unwind(AssertUnwindSafe(|| env.make(&c["c1"]))),
+		catch_unwind(AssertUnwindSafe(|| env.make(&c["c2"]))),
+	) {
+		(Ok(Ok(a)), Ok(Ok(b))) => (a, b),
+		(a, b) => {
+			t.ok(
+				false,
+				"wallet_constructor_failed",
+				inst,
+				json!({"case": desc, "c1": format!("{:?}", a.map(|x| x.map(|_| ()))), "c2": format!("{:?}", b.map(|x| x.map(|_| ())))}),
+			);
+			return;
+		}
+	};
+	// arguments: new generation on any path / mode, legacy generation inside its domain
+	let legacy = inst % 3 == 2;
+	let mut p = rand_path(&mut r);
+	if legacy {
+		while p.len() < 3 {
+			p.push(r.next() as u32);
+		}
+		p.truncate(3);
+	}
+	let id = ident(&p);
+	let amt = rand_amount(&mut r);
+	let mode = if legacy || r.below(2) == 0 {
+		SwitchCommitmentType::Regular
+	} else {
+		SwitchCommitmentType::None
+	};
+	let fam = if legacy { "legacy" } else { "new" };
+	let d1 = catch_unwind(AssertUnwindSafe(|| (k1.derive_key(amt, &id, mode), k1.commit(amt, &id, mode))));
+	let d2 = catch_unwind(AssertUnwindSafe(|| (k2.derive_key(amt, &id, mode), k2.commit(amt, &id, mode))));
+	let (key1, c1, key2, c2) = match (d1, d2) {
+		(Ok((Ok(a), Ok(b))), Ok((Ok(x), Ok(y)))) => (a, b, x, y),
+		_ => {
+			t.ok(false, "derive_key_failed", inst, desc);
+			return;
+		}
+	};
+	t.ok((key1 == key2) == same, "wallet_identity_key", inst, desc.clone());
+	if (key1 == key2) != same {
+		// the two constructors do not denote what the specification says: everything below would repeat it
+		return;
+	}
+	t.ok((c1 == c2) == same, "wallet_identity_commit", inst, desc.clone());
+	let b1 = AnyBuilder::make(fam, &k1);
+	t.proofs += 1;
+	let proof = match catch_unwind(AssertUnwindSafe(|| proof::create(&k1, &b1, amt, &id, mode, c1, None))) {
+		Ok(Ok(p)) => p,
+		_ => {
+			t.ok(false, "create_err", inst, desc);
+			return;
+		}
+	};
+	let v = catch_unwind(AssertUnwindSafe(|| proof::verify(k2.secp(), c2, proof, None)));
+	t.ok(
+		v.is_ok() && matches!(v, Ok(Ok(()))) == same,
+		"wallet_identity_proof",
+		inst,
+		desc.clone(),
+	);
+	let want = (amt, &id, mode);
+	let b2 = AnyBuilder::make(fam, &k2);
+	let exp = if same { "some" } else { "none" };
+	let (got, det) = classify(k2.secp(), &b2, c1, proof, want);
+	t.ok(
+		class_ok(exp, &got),
+		"wallet_rewind",
+		inst,
+		json!({"case": desc, "exp": exp, "got": got, "data": det}),
+	);
+	if !same {
+		let (got, det) = classify(k2.secp(), &b2, c2, proof, want);
+		t.ok(
+			class_ok("none", &got),
+			"wallet_rewind",
+			inst,
+			json!({"case": desc, "on": "own_commit", "exp": "none", "got": got, "data": det}),
 		);
 	}
 }
@@ -658,6 +1062,14 @@ fn replay_alg(c: &Value, seed: u64, case: u64, inst: u64, t: &mut Tally) {
 	let zero = c["zero"].as_bool().unwrap();
 	let whole = env.sum(&terms);
 	let desc = json!(c["terms"]);
+	let zf = BlindingFactor::zero();
+	// Keys.tla AlgZeroOperands: 0 + 0 is defined and zero (BlindingFactor::add's own branch)
+	t.ok(
+		matches!(catch_unwind(AssertUnwindSafe(|| zf.add(&zf, secp))), Ok(Ok(ref b)) if b.is_zero()),
+		"alg_zero_plus_zero",
+		inst,
+		Value::Null,
+	);
 
 	if zero {
 		// the specification leaves a zero total free (the code answers Err(InvalidSecretKey));
@@ -682,8 +1094,23 @@ fn replay_alg(c: &Value, seed: u64, case: u64, inst: u64, t: &mut Tally) {
 		!w.is_zero() && oracle.is_ok() && bf_commit(secp, &w) == oracle.clone().ok(),
 		"alg_blind_sum_vs_commit_sum",
 		inst,
-		json!({"terms": desc, "oracle": oracle.map(|_| "ok")}),
+		json!({"terms": desc, "oracle": oracle.clone().map(|_| "ok")}),
 	);
+	// zero operands: w + 0 = 0 + w = w (the pool adds tx offsets to a header offset that is usually zero)
+	t.ok(w.add(&zf, secp).ok().as_ref() == Some(&w), "alg_add_zero", inst, json!({"terms": desc, "side": "right"}));
+	t.ok(zf.add(&w, secp).ok().as_ref() == Some(&w), "alg_add_zero", inst, json!({"terms": desc, "side": "left"}));
+	// Keychain::sign_with_blinding(msg, w) verifies under the homomorphic image of w
+	{
+		let mut mr = Rng::new(seed ^ 0x516, case, inst);
+		let msg = Message::from_slice(&mr.bytes32()).unwrap();
+		let pk = oracle.clone().ok().and_then(|cm| cm.to_pubkey(secp).ok());
+		let sig = catch_unwind(AssertUnwindSafe(|| kc.sign_with_blinding(&msg, &w)));
+		let ok = match (pk, sig) {
+			(Some(pk), Ok(Ok(sig))) => secp.verify(&msg, &sig, &pk).is_ok(),
+			_ => false,
+		};
+		t.ok(ok, "alg_sign_with_blinding", inst, json!({"terms": desc}));
+	}
 	// order does not matter
 	let n = terms.len();
 	let mut perms: Vec<Vec<(i64, String)>> = vec![];
@@ -722,6 +1149,17 @@ fn replay_alg(c: &Value, seed: u64, case: u64, inst: u64, t: &mut Tally) {
 		if !row["minuszero"].as_bool().unwrap() {
 			let r2 = w.split(&xb, secp).and_then(|y| y.add(&xb, secp));
 			t.ok(r2.ok().as_ref() == Some(&w), "alg_split_then_add", inst, json!({"terms": desc, "x": x}));
+			if x != "z" {
+				// (0 split x) + w = w split x
+				let l = zf.split(&xb, secp).and_then(|y| y.add(&w, secp));
+				let rr = w.split(&xb, secp);
+				t.ok(
+					l.is_ok() && l.ok() == rr.ok(),
+					"alg_zero_split_then_add",
+					inst,
+					json!({"terms": desc, "x": x}),
+				);
+			}
 		}
 	}
 	// split parts sum to the whole
@@ -735,9 +1173,17 @@ fn replay_alg(c: &Value, seed: u64, case: u64, inst: u64, t: &mut Tally) {
 		let pz = cut["pzero"].as_bool().unwrap();
 		let sz = cut["szero"].as_bool().unwrap();
 		if pz {
-			// splitting off the zero key leaves the whole
-			let q = w.split(&BlindingFactor::zero(), secp);
-			t.ok(q.ok().as_ref() == Some(&w), "alg_split_zero", inst, json!({"terms": desc, "k": k}));
+			// splitting off the zero key leaves the whole, and the zero part plus the rest is the whole
+			let q = w.split(&zf, secp);
+			t.ok(q.as_ref().ok() == Some(&w), "alg_split_zero", inst, json!({"terms": desc, "k": k}));
+			if let Ok(q) = q {
+				t.ok(
+					zf.add(&q, secp).ok().as_ref() == Some(&w),
+					"alg_split_parts_do_not_sum",
+					inst,
+					json!({"terms": desc, "k": k, "zero": "prefix"}),
+				);
+			}
 			continue;
 		}
 		let p = match env.sum(&terms[..k]) {
@@ -749,6 +1195,12 @@ fn replay_alg(c: &Value, seed: u64, case: u64, inst: u64, t: &mut Tally) {
 		};
 		if sz {
 			t.ok(p == w, "alg_prefix_ne_whole", inst, json!({"terms": desc, "k": k}));
+			t.ok(
+				p.add(&zf, secp).ok().as_ref() == Some(&w),
+				"alg_split_parts_do_not_sum",
+				inst,
+				json!({"terms": desc, "k": k, "zero": "suffix"}),
+			);
 			continue;
 		}
 		let q = match w.split(&p, secp) {
@@ -822,6 +1274,109 @@ fn sign_kernel(secp: &Secp256k1, features: KernelFeatures, excess: &BlindingFact
 	Ok(kernel)
 }
 
+/// The interactive two-party build (Keys.tla via = "exchange"): A = sender, B = receiver.
+/// Returns the finished transaction; every intermediate claim of ExchangeOK is checked on the way.
+#[allow(clippy::too_many_arguments)]
+fn build_exchange<'k>(
+	features: KernelFeatures,
+	elems_a: &[Box<build::Append<ExtKeychain, AnyBuilder<'k>>>],
+	elems_b: Vec<Box<build::Append<ExtKeychain, AnyBuilder<'k>>>>,
+	kca: &ExtKeychain,
+	ba: &AnyBuilder<'k>,
+	kcb: &ExtKeychain,
+	bb: &AnyBuilder<'k>,
+	r: &mut Rng,
+	inst: u64,
+	desc: &Value,
+	t: &mut Tally,
+) -> Result<Transaction, String> {
+	let secp = kca.secp();
+	let es = |e: grin_core::libtx::Error| format!("{:?}", e);
+	let ks = |e: grin_keychain::Error| format!("{:?}", e);
+	let ss = |e: grin_util::secp::Error| format!("{:?}", e);
+	// A: own elements, offset share o, signing key blind_A - o
+	let (tx_a, blind_a) = build::partial_transaction(Transaction::empty(), elems_a, kca, ba).map_err(es)?;
+	let off_a = BlindingFactor::from_secret_key(rand_key(secp, r));
+	let x_a = blind_a.split(&off_a, secp).map_err(ks)?;
+	let tx_a = tx_a.with_offset(off_a.clone());
+	// B: continues A's transaction (build::initial_tx, or the transaction handed to partial_transaction),
+	// adds the extra key k through build::with_excess; signing key blind_B + k; offset of the tx = o - k
+	let k_b = BlindingFactor::from_secret_key(rand_key(secp, r));
+	let mut eb: Vec<Box<build::Append<ExtKeychain, AnyBuilder<'k>>>> = vec![];
+	let start = if inst % 2 == 0 {
+		eb.push(build::initial_tx::<ExtKeychain, AnyBuilder>(tx_a.clone()));
+		Transaction::empty()
+	} else {
+		tx_a.clone()
+	};
+	eb.push(build::with_excess::<ExtKeychain, AnyBuilder>(k_b.clone()));
+	eb.extend(elems_b);
+	let (tx_b, x_b) = build::partial_transaction(start, &eb, kcb, bb).map_err(es)?;
+	let offset = off_a.split(&k_b, secp).map_err(ks)?;
+	let tx_b = tx_b.with_offset(offset);
+	// signing round
+	let mut kernel = TxKernel::with_features(features);
+	let msg = kernel.msg_to_sign().map_err(|e| format!("{:?}", e))?;
+	let sk_a = x_a.secret_key(secp).map_err(ks)?;
+	let sk_b = x_b.secret_key(secp).map_err(ks)?;
+	let pk_a = PublicKey::from_secret_key(secp, &sk_a).map_err(ss)?;
+	let pk_b = PublicKey::from_secret_key(secp, &sk_b).map_err(ss)?;
+	let n_a = aggsig::create_secnonce(secp).map_err(es)?;
+	let n_b = aggsig::create_secnonce(secp).map_err(es)?;
+	let rn_a = PublicKey::from_secret_key(secp, &n_a).map_err(ss)?;
+	let rn_b = PublicKey::from_secret_key(secp, &n_b).map_err(ss)?;
+	let nonce_sum = PublicKey::from_combination(secp, vec![&rn_a, &rn_b]).map_err(ss)?;
+	let key_sum = PublicKey::from_combination(secp, vec![&pk_a, &pk_b]).map_err(ss)?;
+	let s_a = aggsig::calculate_partial_sig(secp, &sk_a, &n_a, &nonce_sum, Some(&key_sum), &msg).map_err(es)?;
+	let s_b = aggsig::calculate_partial_sig(secp, &sk_b, &n_b, &nonce_sum, Some(&key_sum), &msg).map_err(es)?;
+	for (who, s, pk, other) in [("A", &s_a, &pk_a, &pk_b), ("B", &s_b, &pk_b, &pk_a)] {
+		t.ok(
+			aggsig::verify_partial_sig(secp, s, &nonce_sum, pk, Some(&key_sum), &msg).is_ok(),
+			"partial_sig_does_not_verify",
+			inst,
+			json!({"case": desc, "party": who}),
+		);
+		// a partial signature is one under its own key only
+		t.ok(
+			aggsig::verify_partial_sig(secp, s, &nonce_sum, other, Some(&key_sum), &msg).is_err(),
+			"partial_sig_verifies_for_other_key",
+			inst,
+			json!({"case": desc, "party": who}),
+		);
+	}
+	let sig = aggsig::add_signatures(secp, vec![&s_a, &s_b], &nonce_sum).map_err(es)?;
+	t.ok(
+		aggsig::verify_completed_sig(secp, &sig, &key_sum, Some(&key_sum), &msg).is_ok(),
+		"completed_sig_does_not_verify",
+		inst,
+		desc.clone(),
+	);
+	// one partial signature is not the completed signature
+	t.ok(
+		aggsig::verify_completed_sig(secp, &s_a, &key_sum, Some(&key_sum), &msg).is_err(),
+		"partial_sig_verifies_as_completed",
+		inst,
+		desc.clone(),
+	);
+	// subtracting one partial signature leaves the other
+	for (who, part, rest) in [("A", &s_a, &s_b), ("B", &s_b, &s_a)] {
+		let ok = match aggsig::subtract_signature(secp, &sig, part) {
+			Ok((x, y)) => &x == rest || y.as_ref() == Some(rest),
+			Err(_) => false,
+		};
+		t.ok(ok, "subtract_signature", inst, json!({"case": desc, "subtracted": who}));
+	}
+	kernel.excess = Commitment::from_pubkey(secp, &key_sum).map_err(ss)?;
+	// the kernel excess is the sum of the two parties' public excesses (commitments to zero)
+	let cs = match (secp.commit(0, sk_a), secp.commit(0, sk_b)) {
+		(Ok(x), Ok(y)) => secp.commit_sum(vec![x, y], vec![]).ok(),
+		_ => None,
+	};
+	t.ok(cs == Some(kernel.excess), "exchange_excess_ne_sum_of_parties", inst, desc.clone());
+	kernel.excess_sig = sig;
+	Ok(tx_b.replace_kernel(kernel))
+}
+
 fn replay_tx(c: &Value, seed: u64, case: u64, inst: u64, t: &mut Tally) {
 	let sh = &c["shape"];
 	let mut r = Rng::new(seed ^ 0x7C5, case, inst);
@@ -829,6 +1384,16 @@ fn replay_tx(c: &Value, seed: u64, case: u64, inst: u64, t: &mut Tally) {
 	let fam = if inst % 3 == 2 { "legacy" } else { "new" };
 	let b = AnyBuilder::make(fam, &kc);
 	let secp = kc.secp();
+	// exchange: the receiver's wallet (another seed) and the elements it owns (from the case record)
+	let seed_b = Rng::new(seed ^ 0xB0B, case, inst).bytes32();
+	let kcb = ExtKeychain::from_seed(&seed_b, inst % 2 == 1).unwrap();
+	let bb = AnyBuilder::make(fam, &kcb);
+	let owned_b = |field: &str, pos: usize| -> bool {
+		c["partyB"][field]
+			.as_array()
+			.map(|a| a.iter().any(|x| x.as_u64() == Some(pos as u64 + 1)))
+			.unwrap_or(false)
+	};
 	let ins: Vec<u64> = sh["ins"].as_array().unwrap().iter().map(|x| x.as_u64().unwrap()).collect();
 	let outs: Vec<u64> = sh["outs"].as_array().unwrap().iter().map(|x| x.as_u64().unwrap()).collect();
 	let via = sh["via"].as_str().unwrap();
@@ -868,15 +1433,53 @@ fn replay_tx(c: &Value, seed: u64, case: u64, inst: u64, t: &mut Tally) {
 		x => panic!("kern {}", x),
 	};
 	let mut elems = vec![];
+	let mut elems_b = vec![];
 	for (i, v) in in_vals.iter().enumerate() {
-		elems.push(build::input::<ExtKeychain, AnyBuilder>(*v, ids[i].clone()));
+		let e = build::input::<ExtKeychain, AnyBuilder>(*v, ids[i].clone());
+		if via == "exchange" && owned_b("ins", i) {
+			elems_b.push(e);
+		} else {
+			elems.push(e);
+		}
 	}
 	for (j, v) in out_vals.iter().enumerate() {
-		elems.push(build::output::<ExtKeychain, AnyBuilder>(*v, ids[ins.len() + j].clone()));
+		let e = build::output::<ExtKeychain, AnyBuilder>(*v, ids[ins.len() + j].clone());
+		if via == "exchange" && owned_b("outs", j) {
+			elems_b.push(e);
+		} else {
+			elems.push(e);
+		}
 	}
 	t.proofs += outs.len() as u64;
+	if via == "exchange" {
+		// the partition comes from the specification: both parties contribute, A owns the first input
+		t.ok(
+			!elems_b.is_empty() && !elems.is_empty() && !owned_b("ins", 0),
+			"harness_exchange_partition",
+			inst,
+			desc.clone(),
+		);
+	}
+	let mut tally_x = Tally {
+		checks: 0,
+		proofs: 0,
+		mism: vec![],
+	};
 	let built = catch_unwind(AssertUnwindSafe(|| -> Result<Transaction, String> {
 		match via {
+			"exchange" => build_exchange(
+				features,
+				&elems,
+				std::mem::take(&mut elems_b),
+				&kc,
+				&b,
+				&kcb,
+				&bb,
+				&mut r.clone(),
+				inst,
+				&desc,
+				&mut tally_x,
+			),
 			"transaction" | "block" => build::transaction(features, &elems, &kc, &b).map_err(|e| format!("{:?}", e)),
 			"with_kernel" => {
 				let excess = BlindingFactor::from_secret_key(rand_key(secp, &mut r.clone()));
@@ -892,6 +1495,12 @@ fn replay_tx(c: &Value, seed: u64, case: u64, inst: u64, t: &mut Tally) {
 			x => panic!("via {}", x),
 		}
 	}));
+	t.checks += tally_x.checks;
+	for m in tally_x.mism {
+		if t.mism.len() < 8 {
+			t.mism.push(m);
+		}
+	}
 	let tx = match built {
 		Ok(Ok(tx)) => tx,
 		Ok(Err(e)) => {
@@ -924,17 +1533,32 @@ fn replay_tx(c: &Value, seed: u64, case: u64, inst: u64, t: &mut Tally) {
 	if via == "partial" {
 		t.ok(tx.offset.is_zero(), "partial_offset_not_zero", inst, desc.clone());
 	}
-	// every output is found again by the wallet that built it
+	// every output is found again by the wallet that built it (and, in an exchange, not by the other party)
 	for (j, v) in out_vals.iter().enumerate() {
 		let id = &ids[ins.len() + j];
-		let cm = kc.commit(*v, id, SwitchCommitmentType::Regular).unwrap();
+		let of_b = via == "exchange" && owned_b("outs", j);
+		let owner = if of_b { &kcb } else { &kc };
+		let cm = owner.commit(*v, id, SwitchCommitmentType::Regular).unwrap();
 		match tx.outputs().iter().find(|o| o.commitment() == cm) {
 			None => t.ok(false, "built_output_commit_unexpected", inst, desc.clone()),
 			Some(o) => {
-				let kc2 = ExtKeychain::from_seed(&Rng::new(seed ^ 0x7C5, case, inst).bytes32(), inst % 2 == 1).unwrap();
+				let sa = Rng::new(seed ^ 0x7C5, case, inst).bytes32();
+				let (own_seed, other_seed) = if of_b { (&seed_b, &sa) } else { (&sa, &seed_b) };
+				let kc2 = ExtKeychain::from_seed(own_seed, inst % 2 == 1).unwrap();
 				let b2 = AnyBuilder::make(fam, &kc2);
 				let (got, det) = classify(kc2.secp(), &b2, cm, o.proof, (*v, id, SwitchCommitmentType::Regular));
 				t.ok(got == "exact", "built_output_not_recovered", inst, json!({"case": desc, "got": got, "data": det}));
+				if via == "exchange" {
+					let kc3 = ExtKeychain::from_seed(other_seed, inst % 2 == 1).unwrap();
+					let b3 = AnyBuilder::make(fam, &kc3);
+					let (got, det) = classify(kc3.secp(), &b3, cm, o.proof, (*v, id, SwitchCommitmentType::Regular));
+					t.ok(
+						got == "none",
+						"built_output_recovered_by_other_party",
+						inst,
+						json!({"case": desc, "got": got, "data": det}),
+					);
+				}
 			}
 		}
 	}
@@ -1078,6 +1702,8 @@ fn replay(args: &Args) -> i32 {
 				"alg" => replay_alg(c, seed, idx, inst, &mut t),
 				"tx" => replay_tx(c, seed, idx, inst, &mut t),
 				"cb" => replay_cb(c, seed, idx, inst, &mut t),
+				"pair" => replay_pair(c, &World::new(seed, idx, inst), inst, &mut t),
+				"wal" => replay_wal(c, seed, idx, inst, &mut t),
 				x => panic!("case kind {}", x),
 			}));
 			if r.is_err() {
